@@ -116,9 +116,11 @@ def build(tier, seed, exclude):
             err = SR.l2_equiv({t1!r}, {t2!r}, {{{", ".join(f'"{f}": n{f}' for f in fs)}}}, dup, 7, kw_only={kw})
             return T.fail(err) if err else True
         """, timeout=(50 if quick else 240))
-    g.cond("h_illformed", "kind: int, na: int, nb: int", ["0 <= kind < 12 and 1 <= na <= 2 and 1 <= nb <= 2"], """
-        err = SR.l2_illformed(T.real(kind), T.real(na), T.real(nb))
-        return T.fail(err) if err else True
-    """, timeout=(60 if quick else 300))
+    from vf.hl.splitrun import ILLFORMED
+    for kind, nm in enumerate(ILLFORMED):
+        g.cond(f"h_illformed_{nm}", "na: int, nb: int", ["1 <= na <= 2 and 1 <= nb <= 2"], f"""
+            err = SR.l2_illformed({kind}, T.real(na), T.real(nb))
+            return T.fail(err) if err else True
+        """, timeout=(40 if quick else 120))
     return g.spec(bounds={"fields": "<= 4", "list length": "0-3 (<= 2 fields), 0-2 otherwise", "pairs": n,
                           "ill-formed kinds": 12})
